@@ -28,6 +28,9 @@
 #include "datetime.h"
 
 #include "snoopy.h"
+#ifdef SNOOPY_CONF_THREAD_SAFETY_ENABLED
+#include "tsrm.h"
+#endif
 
 #include <errno.h>
 #include <stdio.h>
@@ -55,16 +58,11 @@ int snoopy_datasource_datetime (char * const resultBuf, size_t resultBufSize, ch
     const struct tm *curLocalTime;
     char const *formatToUse;
     char       timeBuffer[SNOOPY_DATASOURCE_DATETIME_sizeMaxWithNull];
+    size_t     formattedSize;
 
     // Get current time
     if ((time_t) -1 == time(&curTime)) {
         return snprintf(resultBuf, resultBufSize, "(error @ time(): %d)", errno);
-    }
-
-    // Convert to local time
-    curLocalTime = localtime_r(&curTime, &curLocalTimeBuf);
-    if (NULL == curLocalTime) {
-        return snprintf(resultBuf, resultBufSize, "(error @ localtime_r())");
     }
 
     // Determine the format to use
@@ -74,8 +72,28 @@ int snoopy_datasource_datetime (char * const resultBuf, size_t resultBufSize, ch
         formatToUse = SNOOPY_DATASOURCE_DATETIME_defaultFormat;
     }
 
-    // Format it
-    if (0 == strftime(timeBuffer, SNOOPY_DATASOURCE_DATETIME_sizeMaxWithNull, formatToUse, curLocalTime)) {
+    /*
+     * Convert to local time and format it
+     *
+     * Both localtime_r() and strftime() take libc's time zone lock, which fork() does not reset
+     * in the child. If another thread forks while we are holding it, the child's first exec()
+     * blocks forever in this very data source. Keep fork() out for this short while.
+     */
+#ifdef SNOOPY_CONF_THREAD_SAFETY_ENABLED
+    snoopy_tsrm_forkGuard_enter();
+#endif
+    curLocalTime  = localtime_r(&curTime, &curLocalTimeBuf);
+    formattedSize = 0;
+    if (NULL != curLocalTime) {
+        formattedSize = strftime(timeBuffer, SNOOPY_DATASOURCE_DATETIME_sizeMaxWithNull, formatToUse, curLocalTime);
+    }
+#ifdef SNOOPY_CONF_THREAD_SAFETY_ENABLED
+    snoopy_tsrm_forkGuard_leave();
+#endif
+    if (NULL == curLocalTime) {
+        return snprintf(resultBuf, resultBufSize, "(error @ localtime_r())");
+    }
+    if (0 == formattedSize) {
         return snprintf(resultBuf, resultBufSize, "(error @ strftime())");
     }
 
